@@ -784,6 +784,11 @@ SAMPLES = [
      '    ! Assets:Foo  1.0 USD {1.1 EUR, 2000-01-01, "lbl"} @ 1.2 EUR ; pc\n        pk: "pv"\n'
      '    Assets:Bar  -2 USD {{3 EUR}} @@ 3 EUR\n    Assets:Baz  3 USD {1 # 2 EUR}\n    Assets:Qux\n'),
     '2000-02-02 ! "n"\n    Assets:Foo  USD\n    Assets:Bar  1\n',
+    # numbers written as expressions (products, quotients, sums, signs, parentheses): a number property overwrites the WHOLE expression
+    ('2000-02-03 * "e"\n    ee: 2 * 3\n    Assets:Foo  2 * 3 USD {10 / 4 EUR} @ 6 / 3 EUR\n    Assets:Bar  1 + 2 USD {{2 * 2 EUR}} @@ -(1 + 1) EUR\n'
+     '    Assets:Baz  -3 * 2 USD {1 * 1 # 2 / 1 EUR}\n'),
+    '2000-02-04 balance Assets:Foo 2 * 5 ~ 1 / 100 USD\n',
+    '2000-02-05 price USD 11 / 10 EUR\n',
 ]
 
 DEPENDENT = {('Transaction', 'payee'): {'narration', 'string1', 'string2'},
